@@ -377,6 +377,19 @@ def main():
         allok &= bool(found)
         RESULTS.append({"experiment": "MiPurgeConc variant %s" % variant, "expected": what or "no error", "as_expected": bool(found)})
 
+    for variant, what in (("no_unfull", "Invariant ModelValid is violated"), ("always", "Invariant ModelValid is violated"), ("fixed", None)):
+        src = open(os.path.join(ROOT, "spec", "MiHeap_mc.cfg")).read().replace('Variant = "fixed"', 'Variant = "%s"' % variant)
+        tmpcfg = os.path.join(ROOT, "spec", "_selftest_heap_%s.cfg" % variant)
+        open(tmpcfg, "w").write(src)
+        try:
+            r = vlib.tlc_run("MiHeap", os.path.basename(tmpcfg), workers=4, timeout=900, xmx="4g")
+        finally:
+            os.remove(tmpcfg)
+        found = (what is not None and what in r["out"]) or (what is None and "No error has been found" in r["out"])
+        print("%s  %-46s %s" % ("OK  " if found else "FAIL", "MiHeap: variant %s" % variant, what or "no error"))
+        allok &= bool(found)
+        RESULTS.append({"experiment": "MiHeap variant %s" % variant, "expected": what or "no error", "as_expected": bool(found)})
+
     os.makedirs(os.path.join(ROOT, "selftest"), exist_ok=True)
     json.dump({"all_as_expected": bool(allok), "experiments": RESULTS}, open(os.path.join(ROOT, "selftest", "RESULT.json"), "w"), indent=1)
     print("selftest: %s (%d experiments) -> selftest/RESULT.json" % ("all as expected" if allok else "UNEXPECTED RESULTS", len(RESULTS)))
